@@ -801,10 +801,19 @@ func (db *DB) Open() (err error) {
 		return fmt.Errorf("cannot remove tmp files: %w", err)
 	}
 
-	// Set the compactor client once before starting any goroutines.
-	db.compactor.VerifyCompaction = db.VerifyCompaction
-	db.compactor.RetentionEnabled = db.RetentionEnabled
-	db.compactor.client = db.Replica.Client
+	// Set the compactor client before starting any goroutines. When the
+	// database is re-opened (EnableDB after DisableDB) the store's compaction
+	// and retention monitors may still be inside the compactor, so only write
+	// a field whose value actually changed.
+	if db.compactor.VerifyCompaction != db.VerifyCompaction {
+		db.compactor.VerifyCompaction = db.VerifyCompaction
+	}
+	if db.compactor.RetentionEnabled != db.RetentionEnabled {
+		db.compactor.RetentionEnabled = db.RetentionEnabled
+	}
+	if db.compactor.client != db.Replica.Client {
+		db.compactor.client = db.Replica.Client
+	}
 
 	// Start monitoring SQLite database in a separate goroutine.
 	if db.MonitorInterval > 0 {
